@@ -10,7 +10,7 @@ from __future__ import annotations
 import itertools
 import json
 
-from mc.engine.core import Collector, Result, Violation
+from mc.engine.core import Collector, Result, Violation, jleaf
 
 MAGIC = b"HUGRiHJv"
 FORMATS = {1: "MODULE", 2: "MODULE_WITH_EXTS", 63: "JSON"}
@@ -81,11 +81,57 @@ def package_specs(tier):
             yield [list(m), list(e)]
 
 
+SIZES = {"quick": [255, 256, 65535, 65536, 65537, 70000, 1 << 17], "thorough": [255, 256, 4095, 4096, 65535, 65536, 65537, 70000, 1 << 17, (1 << 20) - 1, 1 << 20, (1 << 20) + 1, 1 << 22, (1 << 24) + 7]}
+COUNTS = {"quick": [9, 10, 11, 130], "thorough": [9, 10, 11, 99, 100, 101, 130, 255, 256, 257, 700]}
+
+
+def _filler(n, kind):
+    """n characters: 'rep' compresses ~1000x, 'mix' (hex of a hash chain) only ~2x."""
+    if kind == "rep":
+        return "a" * n
+    import hashlib
+
+    out, h = [], b"c09"
+    while sum(map(len, out)) < n:
+        h = hashlib.blake2b(h, digest_size=32).digest()
+        out.append(h.hex())
+    return "".join(out)[:n]
+
+
+def big_module(n, kind):
+    """A module whose serialized JSON is dominated by one metadata string of n characters."""
+    from hugr import tys
+    from hugr.build.function import Module
+
+    m = Module()
+    f = m.define_main([tys.Bool])
+    f.set_outputs(*f.inputs())
+    m.hugr[m.hugr.root].metadata["blob"] = _filler(n, kind)
+    return m.hugr
+
+
+def size_specs(tier):
+    """The size ladder: payloads straddling 2^8 .. 2^24 bytes, and packages of many small modules."""
+    for n in SIZES[tier]:
+        for kind in ("rep", "mix"):
+            yield [[["big", n, kind]], []]
+    for k in COUNTS[tier]:
+        yield [[["many", k]], []]
+
+
 def build_package(spec):
     from hugr.package import Package
 
     ms, es = modules(), extensions()
-    return Package([ms[i][1]() for i in spec[0]], [es[i][1]() for i in spec[1]])
+    mods = []
+    for i in spec[0]:
+        if isinstance(i, list) and i[0] == "big":
+            mods.append(big_module(i[1], i[2]))
+        elif isinstance(i, list) and i[0] == "many":
+            mods += [ms[j % 2][1]() for j in range(i[1])]
+        else:
+            mods.append(ms[i][1]())
+    return Package(mods, [es[i][1]() for i in spec[1]])
 
 
 def docs_of(p):
@@ -98,7 +144,7 @@ def _same_docs(a, b):
             return [n(y) for y in x]
         if isinstance(x, dict):
             return {k: (sorted(v) if k in ("runtime_reqs", "extensions", "es", "extension_delta") and isinstance(v, list) and all(isinstance(q, str) for q in v) else n(v)) for k, v in x.items()}
-        return x
+        return jleaf(x)
 
     return n(a) == n(b)
 
@@ -323,6 +369,15 @@ def run(tier: str, seed: int) -> Result:
                 n_skip += sk
                 for sig, msg in fails:
                     col.add(sig, msg, {"package": spec, "format": fmt, "level": level})
+    n_big = 0
+    for spec in size_specs(tier):
+        for level in (None, 0, 3):
+            n_pk += 1
+            n_big += 1
+            fails, sk = check_package(spec, 63, level)
+            n_skip += sk
+            for sig, msg in fails:
+                col.add(sig.replace(":JSON", ":JSON:size-ladder", 1) if ":JSON" in sig else sig + ":size-ladder", msg[:400], {"package": spec, "format": 63, "level": level})
     for sig, msg in default_config_cases():
         col.add(sig, msg, {"default": True})
     hf, n_h = check_header_space()
@@ -340,13 +395,16 @@ def run(tier: str, seed: int) -> Result:
         "rule": "packages = ordered selections of <=2 (3) of 3 modules (one with non-ASCII names/metadata and null-carrying fields) x <=2 of "
         "3 extensions (incl. an op with signature+binary flag); x 3 formats x compression levels; to_bytes/from_bytes/to_str/from_str; header "
         "decoder on all 65536 (format, flags) pairs, truncations 0..9, every single-byte magic corruption; non-trivial = non-empty package or "
-        "a header pair",
+        "a header pair; size ladder: one module with a metadata string of n characters (n straddling 2^8, 2^16, 2^17 (thorough 2^20, 2^22, 2^24), "
+        "highly and poorly compressible) and packages of k small modules (k straddling 10, 100 (thorough 256), 130, 700), JSON x {none, default, 3}",
         "samples": col.samples,
         "exhaustive": True,
         "package_config_cases": n_pk,
         "skipped_native_module_formats": n_skip,
         "header_cases": n_h,
         "levels": [l for l in LEVELS[tier]],
+        "size_ladder_cases": n_big,
+        "size_ladder": {"payload_chars": SIZES[tier], "module_counts": COUNTS[tier], "contents": ["repetitive", "hash-chain hex"], "levels": [None, 0, 3]},
     }
     return Result(cov, col.violations, ["R8: 10-byte header layout from hugr-core/src/envelope/header.rs", "MODULE / MODULE_WITH_EXTS need the native module: counted as skipped, not as passed"])
 
